@@ -345,8 +345,119 @@ def job_cdf(name, d, tier):
     return out
 
 
+def job_tpl(name, d, tier):
+    """truncated power law models: the Fourier transform is linear, so the spectral density must be the same superposition
+    (same weights, same rescaled cut-off lengths) of single-scale spectral densities as the correlation is of single-scale
+    correlations.  Both single-scale kernels are replaced by ONE uninterpreted function F(argument, length): then
+    spectral_density(q) and correlation(q) must be the same term."""
+    gs, SNUM = _setup()
+    from ..npx import NPX
+    import gstools.covmodel.tpl_models as tm
+    import gstools.tools.special as sp
+
+    T = core.tier_timeout(tier)
+    out = []
+    F = z3.Function("single_scale_kernel", z3.RealSort(), z3.RealSort(), z3.RealSort())
+
+    def kern(q, ell):
+        q = rnp.asarray(q, dtype=object)
+        return rnp.frompyfunc(lambda x: Sym(F(lift(x), lift(ell))), 1, 1)(q)
+
+    orig = {"tpl_exp_spec_dens": sp.tpl_exp_spec_dens, "tpl_gau_spec_dens": sp.tpl_gau_spec_dens}
+
+    def wrap(fname):
+        def w(k, dim, len_scale, hurst, len_low=0.0):
+            if not isinstance(len_low, Sym) and float(len_low) == 0.0:
+                return kern(k, len_scale)  # single-scale spectral density
+            if isinstance(len_low, Sym) and bool(NPX.isclose(len_low, 0.0)):
+                sym.assume(len_low == 0)
+                return kern(k, len_scale)
+            return orig[fname](k, dim, len_scale, hurst, len_low)  # the real superposition code (recursion re-enters this wrapper)
+
+        return w
+
+    for fname in orig:
+        wfn = wrap(fname)
+        sp.__dict__[fname] = wfn
+        tm.__dict__[fname] = wfn
+    stub_cor = lambda r, len_scale, hurst, alpha: kern(r, len_scale)
+    sp.__dict__["tplstable_cor"] = stub_cor
+    tm.__dict__["tplstable_cor"] = stub_cor
+    l, s, q, H, low = sym.reals("len resc q hurst len_low")
+    wv = dict(len=l, resc=s, q=q, hurst=H, len_low=low)
+    rb = ("tpl", lambda v: {"model": name, "dim": d, "values": v})
+    tag = f"C04/{name}/d{d}/superposition"
+
+    def run():
+        for x in (l, s, q):
+            sym.assume(x > 0)
+        sym.assume(H > 0.1)
+        sym.assume(H < 1)
+        sym.assume(low >= 0)
+        if bool(NPX.isclose(low / s, 0.0)):
+            sym.assume(low == 0)
+        m = getattr(gs, name)(dim=d, len_scale=l, rescale=s, hurst=H, len_low=low)
+        Q = rnp.array([q], dtype=object)
+        return m.spectral_density(Q)[0], m.correlation(Q)[0]
+
+    n_ok = 0
+    for pi, p in enumerate(explore(run, max_paths=40)):
+        base = f"{tag}/path{pi}"
+        if p.exc is not None:
+            out.append(rec(base, "error", detail=f"{p.exc!r} {p.tb}"))
+            continue
+        n_ok += 1
+        sd, co = p.out
+        out.append(prove(base + "/spectral density == the correlation's superposition of single-scale kernels (same weights, same rescaled lengths)", p.conds, lift(sd) == lift(co), T, witness_vars=wv, replay=rb, pairwise=False))
+    if not n_ok:
+        out.append(rec(tag + "/reach", "vacuous"))
+    return out
+
+
+def job_dim_history(name, tier):
+    """numerical default spectrum after changes of the dimension / of hankel_kw: every transform is taken in the current dimension"""
+    gs, SNUM = _setup()
+    T = core.tier_timeout(tier)
+    out = []
+    k = real("k")
+    rb = ("dimhist", lambda v: {"model": name, "values": v})
+    tag = f"C04/{name}/dim_history"
+    for seq in ((3, 2), (1, 3), (2, 2, 1), ("kw", 2), (3, "kw", 1)):
+        def run():
+            sym.assume(k > 0)
+            d0 = next(x for x in seq if x != "kw")
+            m = getattr(gs, name)(dim=d0)
+            res = []
+            for step in seq:
+                if step == "kw":
+                    m.hankel_kw = {"N": 300}
+                else:
+                    m.dim = step
+                del SNUM.fake.calls[:]
+                m.spectral_density(rnp.array([k], dtype=object))
+                kw = SNUM.fake.calls[0][0] if SNUM.fake.calls else None
+                same = bool(SNUM.fake.calls) and SNUM.fake.calls[0][1] == m.correlation and all((kw or {}).get(k_) == v_ for k_, v_ in m.hankel_kw.items())
+                res.append((m.dim, kw, same))
+            return res
+
+        for pi, p in enumerate(explore(run, max_paths=8)):
+            base = f"{tag}/{'>'.join(map(str, seq))}/path{pi}"
+            if p.exc is not None:
+                out.append(rec(base, "error", detail=f"{p.exc!r} {p.tb}"))
+                continue
+            for i, (dim_now, kw, same_cor) in enumerate(p.out):
+                ok = kw is not None and kw.get("ndim") == dim_now and kw.get("a") == -1 and kw.get("b") == 1 and same_cor
+                out.append(rec(f"{base}/step{i}: transform taken with ndim == current dim ({dim_now}), (2 pi)^-d convention, of the model's correlation with the current hankel_kw", "unsat" if ok else "sat", vacuity="sat", witness={}, replay={"kind": "dimhist", "inputs": {"model": name, "seq": list(seq), "values": {}}}, detail=str(kw)))
+    return out
+
+
 def jobs(tier, seed):
     js = []
+    for name in ("TPLGaussian", "TPLExponential"):
+        for d in (1, 2, 3):
+            js.append(Job(f"tpl-{name}-d{d}", job_tpl, name, d, tier))
+    for name in ("Stable", "Spherical", "Rational") if tier == "quick" else ("Stable", "Rational", "Cubic", "Linear", "Circular", "Spherical", "SuperSpherical", "TPLSimple", "TPLStable"):
+        js.append(Job(f"dimhist-{name}", job_dim_history, name, tier))
     names = list(MODELS) if tier == "thorough" else ["Gaussian", "Exponential", "Matern", "Integral", "HyperSpherical", "JBessel", "TPLGaussian", "TPLExponential", "Stable", "Spherical"]
     for name in names:
         for d in (1, 2, 3):
@@ -509,4 +620,51 @@ def replay_cdf(inputs):
     return (not bad), f"{name} d={d} len={l} resc={s} failing={bad}"
 
 
-REPLAY = {"identities": replay_identities, "cdf": replay_cdf}
+def replay_tpl(inputs):
+    """numerical Fourier transform of the real correlation vs the reported spectral density (rescale != 1, len_low > 0)"""
+    import warnings
+
+    import numpy as np
+
+    warnings.simplefilter("ignore")
+    import gstools as gs
+
+    name, d, v = inputs["model"], int(inputs["dim"]), inputs.get("values") or {}
+    bad = []
+    for l, s, low, H in [(abs(_val(v, "len", 2.0)) or 2.0, abs(_val(v, "resc", 2.5)) or 2.5, abs(_val(v, "len_low", 0.5)), min(max(_val(v, "hurst", 0.3), 0.15), 0.9)), (2.0, 2.5, 0.5, 0.3), (1.5, 0.6, 1.0, 0.6)]:
+        m = getattr(gs, name)(dim=d, len_scale=l, rescale=s, len_low=low, hurst=H)
+        for k in (0.05, 0.4, 1.5):
+            sd = float(m.spectral_density(np.array([k]))[0])
+            num = _num_ft(m, k, d)
+            if not np.isclose(sd, num, rtol=2e-2, atol=2e-3 * float(m.spectral_density(np.array([0.0]))[0])):
+                bad.append(f"len={l} rescale={s} len_low={low} hurst={H}: spectral_density({k}) {sd} != numerical Fourier transform of the correlation {num}")
+    return (not bad), f"{name} d={d} {bad[:3]}"
+
+
+def replay_dimhist(inputs):
+    import warnings
+
+    import numpy as np
+
+    warnings.simplefilter("ignore")
+    import gstools as gs
+
+    name, seq = inputs["model"], inputs.get("seq") or [3, 2]
+    d0 = next(x for x in seq if x != "kw")
+    m = getattr(gs, name)(dim=d0)
+    bad = []
+    ks = np.array([0.1, 0.7])
+    for step in seq:
+        if step == "kw":
+            m.hankel_kw = {"N": 300}
+        else:
+            m.dim = step
+        got = np.asarray(m.spectral_density(ks), dtype=float)
+        fresh = getattr(gs, name)(dim=m.dim, hankel_kw=m.hankel_kw)
+        want = np.asarray(fresh.spectral_density(ks), dtype=float)
+        if not np.allclose(got, want, rtol=1e-9):
+            bad.append(f"after {step}: spectral_density {got.tolist()} != freshly constructed dim={m.dim} model {want.tolist()}")
+    return (not bad), f"{name} seq={seq} {bad[:3]}"
+
+
+REPLAY = {"identities": replay_identities, "cdf": replay_cdf, "tpl": replay_tpl, "dimhist": replay_dimhist}
